@@ -37,6 +37,12 @@ def P(explanation, tasks, bounds=STEP_BOUNDS, assumptions=STEP_ASSUME, level="mo
 PROPS = {}
 
 
+def restart_tasks(tier, matrix):
+    return [dict(ob="prod.restart", params=dict(tier=tier, ops=ops, histories=hs), want=["C11."]) for hs, ops in matrix]
+
+
+
+
 def usage_ops_late(tier, mode, want):
     return usage_ops(tier, mode, want)
 
@@ -44,18 +50,21 @@ PROPS["C01"] = P(
     "step(add) stores exactly one row and commits before fan-out; step(open) replays exactly the stored "
     "messages of (app, mailbox id); every operation changes a message slot only by deleting it together "
     "with its mailbox row and all messages of that mailbox; INV.msg_mailbox (no message outlives its mailbox)",
-    lambda tier: all_ops(tier, ["C01.", "INV.msg_mailbox", "INV.uniq_mailbox_id"]))
+    lambda tier: all_ops(tier, ["C01.", "INV.msg_mailbox", "INV.uniq_mailbox_id"]) +
+                 restart_tasks(tier, [(["open_add", "open_add_sweep", "open_close_other"], ["open", "openadd"])]))
 
 PROPS["C02"] = P(
     "step(add) with other connections in arbitrary subscription states: one message frame per subscribed "
     "connection (adder included), none elsewhere, fields = bound side + command fields; INV_MEM (one "
     "registry object per app / mailbox, listener sets = listening connections) preserved by every operation",
-    lambda tier: all_ops(tier, ["C02.", "MEM."]))
+    lambda tier: all_ops(tier, ["C02.", "MEM."]) +
+                 restart_tasks(tier, [(["open_add", "open_add_sweep", "claim"], ["openadd"])]))
 
 PROPS["C03"] = P(
     "step(claim): answer = stored mailbox id of (app, name) or the freshly generated one; nameplate rows "
     "never change except by deletion; uniqueness invariants preserved by every operation",
-    lambda tier: all_ops(tier, ["C03.", "INV.uniq_", "INV.np_mailbox", "INV.npid_below_counter"]))
+    lambda tier: all_ops(tier, ["C03.", "INV.uniq_", "INV.np_mailbox", "INV.npid_below_counter"]) +
+                 restart_tasks(tier, [(["alloc", "claim"], ["claim", "allocate"]), (["alloc_sweep_claim"], ["claim"])]))
 
 PROPS["C05"] = P(
     "step(open|claim|close-that-opens) on a mailbox that already has two other side rows: exactly "
@@ -150,12 +159,21 @@ PROPS["C06"] = P(
     "command -> identical frames on the app's connections and identical rows for the app",
     lambda tier: [dict(ob="prod.isolation", params=dict(tier=tier), want=["C06."])] + all_ops(tier, ["C06."]))
 
+RESTART_ALL = lambda tier: [
+    (["open_add", "claim", "open_close_other"], ["list", "allocate", "claim", "release", "open", "close", "sweep", "openadd"]),
+    (["alloc"], ["claim", "allocate", "list", "release"]),
+    (["open_add_sweep"], ["open", "claim", "list", "openadd"]),
+    (["alloc_sweep_claim"], ["claim", "allocate"] if tier == "thorough" else ["claim"]),
+]
+
 PROPS["C11"] = P(
-    "step bisimulation between a server that kept running (registries may hold idle AppNamespace / Mailbox "
-    "objects left by connections that came and went) and a freshly started one on the same store, with the "
-    "same live connections: every operation (all commands, bind, disconnect, sweep) yields identical frames, "
-    "identical store and related states again (same per-connection protocol state, same subscriptions)",
-    lambda tier: [dict(ob="prod.restart", params=dict(tier=tier), want=["C11."])])
+    "two-run product: an arbitrary INV state, then a short real history by connections that come and go "
+    "(open+add, allocate, claim, open+add+close, optionally followed by a long silence and a sweep, optionally "
+    "followed by another side claiming the expired nameplate), then every connection is dropped; run X keeps "
+    "the server object with whatever it accumulated in memory, run Y rebuilds it from the store; the same "
+    "command from a reconnecting client (any app/side, in particular the ones used before the cut) yields "
+    "identical frames, identical store and identical per-connection state",
+    lambda tier: restart_tasks(tier, RESTART_ALL(tier)))
 
 PROPS["C14"] = P(
     "two-run product: cmd on c1 vs. cmd on c1 followed by the same cmd from a fresh connection of the same "
